@@ -27,6 +27,10 @@ var endNames = []string{"half-close", "close", "reset", "reset-reported-once"}
 // c11Stall > 0: the client of the next mini-runs never reads its replies, behind a window of that many bytes.
 var c11Stall int
 
+// c11Piggy: in the next mini-runs that end with a half-close or a close, the last bytes and the end of the stream
+// reach the server together (its last Read returns n > 0 and io.EOF at once).
+var c11Piggy bool
+
 func cutRun(tape *sim.Tape, o *Outcome, mk func() []*wl.Req, cut int, mode int, chunk int, dropTail int) *connRun {
 	c := newConnRun(tape, o)
 	// a read of the key "big" is answered with a large value (in every mini-run alike)
@@ -70,6 +74,12 @@ func cutRun(tape *sim.Tape, o *Outcome, mk func() []*wl.Req, cut int, mode int, 
 			break
 		}
 		k := c.nextChunk(c.delivered(), rem)
+		if c11Piggy && k >= rem && (mode == endHalfClose || mode == endClose) {
+			// the last piece travels together with the end of the stream
+			c.P.Dir(0).Piggyback = true
+			c.P.Deliver(0, k)
+			break
+		}
 		c.P.Deliver(0, k)
 	}
 	switch mode {
@@ -86,6 +96,10 @@ func cutRun(tape *sim.Tape, o *Outcome, mk func() []*wl.Req, cut int, mode int, 
 		if deliverable < cut {
 			c.S.Count("reset_dropped_undelivered")
 		}
+	}
+	if c11Piggy && (mode == endHalfClose || mode == endClose) && c.P.FinPending(0) {
+		c.P.DeliverFin(0)
+		c.S.Count("end_of_stream_together_with_the_last_bytes")
 	}
 	c.pump(nil)
 	return c
@@ -485,6 +499,11 @@ func runC11(t *testing.T, tape *sim.Tape, tier string) *Outcome {
 			check(cut, mode, 0, 0)
 			check(cut, mode, seeded, 0)
 		}
+		// the same cut with the last bytes and the end of the stream arriving in one read
+		c11Piggy = true
+		check(cut, endHalfClose, 0, 0)
+		check(cut, endClose, seeded, 0)
+		c11Piggy = false
 		// reset that also loses bytes the client had written but the server had not yet received
 		if cut > 0 {
 			check(cut, endReset, seeded, 1+tape.Draw(cut, "drop"))
@@ -500,7 +519,7 @@ func init() {
 	register(&Check{
 		ID: "C11", Bubble: true, Run: runC11,
 		Runs:   map[string]int{"quick": 176, "thorough": 5000},
-		Rule:   "per generated pipeline (1..4 valid requests, <= 420 bytes, in a quarter of them some arguments sent as simple strings or (numeric ones) as integer-typed elements, one in six with an additional request of 17..48 arguments): every byte offset 0..len x {half-close, close, reset, reset whose error only one read reports (then end of stream, as on Linux)} x 2 delivery schedules (whole prefix, seeded chunking), plus one reset per offset that drops a drawn amount of undelivered bytes - enumerated completely per pipeline; one pipeline in eight instead ends with a 70 KB text value of CRLF-terminated lines whose cuts are sampled at structural places (after embedded line ends, around powers of two of the payload, inside the terminator), followed by a read of that value and two small requests, and sent once more by a client that never reads its replies (the large reply blocks behind a small window, then the client closes); every second run goes through the TLS port instead: a real crypto/tls client (1.2 or 1.3) writes a pipeline of complete requests, optionally a partial one, and ends its stream at once (close_notify or close right behind the last record); pipelines are sampled; distinct = distinct (pipeline, offset, end mode, schedule, drop) tuples; every case ends a stream so all are non-trivial",
+		Rule:   "per generated pipeline (1..4 valid requests, <= 420 bytes, in a quarter of them some arguments sent as simple strings or (numeric ones) as integer-typed elements, one in six with an additional request of 17..48 arguments): every byte offset 0..len x {half-close, close, reset, reset whose error only one read reports (then end of stream, as on Linux)} x 2 delivery schedules (whole prefix, seeded chunking), plus half-close and close with the last bytes and the end of the stream arriving in one read, plus one reset per offset that drops a drawn amount of undelivered bytes - enumerated completely per pipeline; one pipeline in eight instead ends with a 70 KB text value of CRLF-terminated lines whose cuts are sampled at structural places (after embedded line ends, around powers of two of the payload, inside the terminator), followed by a read of that value and two small requests, and sent once more by a client that never reads its replies (the large reply blocks behind a small window, then the client closes); every second run goes through the TLS port instead: a real crypto/tls client (1.2 or 1.3) writes a pipeline of complete requests, optionally a partial one, and ends its stream at once (close_notify or close right behind the last record); pipelines are sampled; distinct = distinct (pipeline, offset, end mode, schedule, drop) tuples; every case ends a stream so all are non-trivial",
 		Real:   []string{"redis.Server connection loop, parser, dispatch, executors, connection registry"},
 		Stub:   []string{"transport: simulated net.Conn with FIN / full close / RST", "handler: recording double"},
 		Assume: []string{"the expected handler calls of a completely received request are those of the fault-free run of the same pipeline"},
